@@ -8,6 +8,7 @@ NOTE = 'bounded claim; trusted: CPython semantics for character-moving operation
 
 CHECKS = {
     # id: (engine, level text, design ref, technique)
+    'C05': ('symtex', 'twin-hole documents: argument texts are symbolic so the solver itself chooses textually identical siblings; every target x edit compared with a string splice computed by node identity', 'DESIGN.md §7 C05'),
     'C06': ('symtex', 'all strings up to the length bound over all of Unicode, both tolerance modes: outcome is a tree or a diagnostic error on every feasible path', 'DESIGN.md §7 C06'),
     'C07': ('symtex', 'strict success implies an identical tolerant result, for all strings up to the length bound', 'DESIGN.md §7 C07'),
     'C08': ('symtex', 'alignment oracle (only blank runs before { or [ may disappear) discharged by z3 on every path of every parseable string up to the length bound', 'DESIGN.md §7 C08'),
